@@ -673,12 +673,7 @@ def _r(v):
 
 def corpus():
     return [
-        # F2 (fixed in 904d7cc): 3-period schedule in the period in which the queue is already empty
-        {"mode": "run", "stations": ["A"], "limit": None, "maxrate": None,
-         "sessions": [{"station": "A", "arrival": 0, "departure": 6, "session": "a"}], "recompute": [],
-         "max_recompute": None, "script": {"0": [["A", _r([8, 8])]], "6": [["A", _r([5, 6, 7])]]}},
-        {"mode": "direct", "stations": ["A", "B"], "limit": None, "start_queue": [6],
-         "ops": [{"t": 6, "queue": [], "sched": [["A", _r([5, 6, 7])]]}]},
+        # (the F2 scenarios live in harness/corpus/C04/f2_last_period_*.json)
         # overlay: later, shorter schedule omitting a station inside an earlier longer one
         {"mode": "direct", "stations": ["B", "A"], "limit": None, "start_queue": [9],
          "ops": [{"t": 0, "queue": [9], "sched": [["A", _r([1, 2, 3, 4, 5, 6])], ["B", _r([7, 8, 9, 10, 11, 12])]]},
